@@ -19,10 +19,11 @@ import kinds as K
 
 V = os.path.dirname(os.path.dirname(os.path.abspath(__file__)))
 IGNORE = r"log::Level|STATIC_MAX_LEVEL|log::max_level|ckb_logger|ckb_metrics"
+NOISE_CALLS = re.compile(r"::(as_reader|to_entity|as_slice|as_bytes|as_builder|clone|to_owned|into|from|default|fmt|eq|ne|hash|borrow|as_ref|deref)$")
 NOISE_CRATES = re.compile(r"^(ckb_logger|ckb_metrics|ckb_error|ckb_stop_handler|ckb_async_runtime|ckb_channel|ckb_util::(shrink_to_fit|Mutex|RwLock)|ckb_fixed_hash|ckb_systemtime)")
 STD_SIGNIFICANT = re.compile(
     r"(::(checked|saturating|wrapping|overflowing)_(add|sub|mul|div|pow|rem)$|cmp::(min|max)$|Ord::(min|max|clamp)$|"
-    r"Iterator::(skip|take|filter|rev|step_by|skip_while|take_while|filter_map|nth|last|zip|chain|enumerate|all|any|find|position|max|min|max_by_key|min_by_key|sum|fold|try_fold|count)$|"
+    r"Iterator::(skip|take|filter|rev|step_by|skip_while|take_while|filter_map|nth|last|zip|chain|all|any|find|position|max_by_key|min_by_key)$|"
     r"::(insert|remove|push|push_back|push_front|pop|pop_back|pop_front|extend|extend_from_slice|clear|retain|truncate|drain|split_off|swap_remove|sort\w*|dedup\w*|reverse|entry|or_insert\w*|"
     r"contains|contains_key|get|get_mut|first|last|is_empty|len|difference|intersection|union|is_disjoint|is_subset)$|"
     r"::(sync_all|sync_data|set_len|write_all|seek|flush|read_exact|rename|remove_file|create|open)$|"
@@ -70,7 +71,7 @@ def callee_name(c):
 
 
 def significant(c):
-    if c.exp:
+    if c.exp or NOISE_CALLS.search(c.callee):
         return None
     nm, short = callee_name(c)
     full = c.callee
@@ -109,25 +110,82 @@ def jd(x):
     return json.dumps(conv(x), sort_keys=True)
 
 
-def fingerprint(root, bodies):
+def canon(h):
+    """one canonical form per predicate: `a <= b [T,F]` is `b < a [F,T]`; a clamp test whose true side returns the very bound it compares
+    against while the other operand's value is among the false side's results is boundary-neutral (`<` and `<=` give the same value)."""
+    op, a, b, t, f = h
+    # Option / Result tests: `x.is_none()`, `x.is_some()`, `match x {None => .., Some(..) => ..}`, `if let Some(..) = x` are one predicate
+    if op == "if" and a and re.search(r"^call:(Option|Result)?:*(is_none|is_some|is_ok|is_err)$", a[0]):
+        kind = a[0].rsplit("is_", 1)[1]
+        var, flip = {"none": ("Option::None", False), "some": ("Option::None", True), "err": ("Result::Err", False), "ok": ("Result::Err", True)}[kind]
+        return ("match", (var,), tuple(a[1:]) + tuple(b), f if flip else t, t if flip else f)
+    if op == "match" and a and a[0] in ("Option::Some", "Result::Ok"):
+        return ("match", ("Option::None" if a[0] == "Option::Some" else "Result::Err",), b, f, t)
+    if op == "le":
+        op, a, b, t, f = "lt", b, a, f, t
+    if op == "lt":
+        ts, fs = set(t), set(f)
+        if (ts == {a} and b in fs) or (ts == {b} and a in fs) or (fs == {a} and b in ts) or (fs == {b} and a in ts):
+            lo, hi = sorted([a, b], key=str)
+            return ("cmp~", lo, hi, frozenset(ts | fs), frozenset())
+    return (op, a, b, t, f)
+
+
+def fingerprint(root, bodies, S=None):
     dec = Counter()
     calls = Counter()
     for b in bodies:
         try:
-            for h, _ in K.decision_sites(b, ignore=IGNORE, matches=True):
+            seen_sites = set()
+            for h, site in K.decision_sites(b, ignore=IGNORE, matches=True):
                 if not h[3] or not h[4]:
                     continue
-                dec[jd(h)] += 1
+                ch = jd(canon(h))
+                if h[0] == "match":
+                    # both arms of a two-variant match canonicalise to the same predicate: count the switch once
+                    if (site.bb, ch) in seen_sites:
+                        continue
+                    seen_sites.add((site.bb, ch))
+                dec[ch] += 1
         except Exception as e:  # a body the form analysis cannot handle is fingerprinted by its calls only
             dec["<analysis-error:%s>" % type(e).__name__] += 1
         for c in b.calls:
             s = significant(c)
             if s:
-                calls[s] += 1
+                calls[through_wrappers(c, S) if S is not None else s] += 1
     return {"dec": dict(dec), "calls": dict(calls)}
 
 
-def collect(F, scope):
+_THIN = {}
+
+
+def through_wrappers(c, S, depth=0):
+    """the callee a call finally delegates to: `Header::calc_header_hash` is `self.as_reader().calc_header_hash()`, so calling the wrapper and
+    calling its target are the same step (thin wrapper: no decision, exactly one significant call). Keeps inlining / introducing such
+    delegations silent."""
+    s = significant(c)
+    if depth >= 3:
+        return s
+    key = c.res or c.callee
+    if key in _THIN:
+        t = _THIN[key]
+        return t if t is not None else s
+    _THIN[key] = None
+    try:
+        cbs = [cb for cb in S.callee_bodies(c) if cb.kind in ("Fn", "AssocFn")]
+    except Exception:
+        cbs = []
+    if len(cbs) == 1:
+        cb = cbs[0]
+        sig = [x for x in cb.calls if significant(x)]
+        if len(sig) == 1 and len(cb.blocks) <= 6 and not any(blk["t"].get("k") == "switch" for blk in cb.blocks) and not cb.nested():
+            t = through_wrappers(sig[0], S, depth + 1)
+            _THIN[key] = t
+            return t
+    return s
+
+
+def collect(F, scope, S=None):
     """{function path: (root body, fingerprint)} for every root function defined in the scope files"""
     fidx = F.file_index()
     crates = sorted({c for f, cs in fidx.items() if in_scope(f, scope) for c in cs})
@@ -140,7 +198,7 @@ def collect(F, scope):
             groups.setdefault(b.root or b.path, []).append(b)
         for root, bodies in groups.items():
             rb = [b for b in bodies if b.path == root]
-            fp = fingerprint(root, bodies)
+            fp = fingerprint(root, bodies, S)
             if not fp["dec"] and not fp["calls"]:
                 continue
             if root in out:      # same path defined twice (several impls): merge
@@ -156,14 +214,14 @@ def frozen_path(prop):
     return os.path.join(V, "rules", "fp", prop + ".json")
 
 
-def check(R, F, prop):
+def check(R, F, prop, S=None):
     p = frozen_path(prop)
     if not os.path.exists(p):
         return
     with open(p) as fh:
         frozen = json.load(fh)
     scope = frozen["scope"]
-    cur = collect(F, scope)
+    cur = collect(F, scope, S)
     fz = frozen["functions"]
     R.sites += len(cur)
     n_ok = 0
@@ -199,9 +257,9 @@ def check(R, F, prop):
         R.bad("fp/floor", "only %d functions found in the anchor files, the reference has %d" % (len(cur), len(fz)), [])
 
 
-def freeze(F, prop):
+def freeze(F, prop, S=None):
     scope = scope_of(prop)
-    cur = collect(F, scope)
+    cur = collect(F, scope, S)
     out = {"property": prop, "scope": scope, "functions": {path: {"file": b.file, "dec": fp["dec"], "calls": fp["calls"]} for path, (b, fp) in sorted(cur.items())}}
     os.makedirs(os.path.dirname(frozen_path(prop)), exist_ok=True)
     with open(frozen_path(prop), "w") as fh:
@@ -215,6 +273,7 @@ if __name__ == "__main__":
     import run as _run
     from facts import Facts
     F = Facts(_run.ensure_facts()[0])
+    S = K.Summ(F, depth=3)
     props = sys.argv[1:] or ["C%02d" % i for i in range(1, 21)]
     for p in props:
-        print(p, "functions=%d decisions=%d calls=%d" % freeze(F, p))
+        print(p, "functions=%d decisions=%d calls=%d" % freeze(F, p, S))
